@@ -16,6 +16,9 @@ for ID in sys.argv[1:]:
         over = f'/verif/seeded/{ID}-m{k}/patch.diff'
         if os.path.exists(over):   # an adapted patch (the original no longer applies after a fix commit) takes precedence
             diff = over
+        mj = f'/verif/seeded/{ID}-m{k}/meta.json'
+        if os.path.exists(mj) and json.load(open(mj)).get('confirmed'):
+            print(ID, k, 'already confirmed'); continue
         if not (os.path.exists(diff) and os.path.exists(demo)):
             print(ID, k, 'MISSING files'); continue
         wt = f'/tmp/confirm/{ID}m{k}'
@@ -38,10 +41,12 @@ for ID in sys.argv[1:]:
             dst = f'{wt}/{place}/zz_seeded_demo_test.go'
             shutil.copy(demo, dst)
             pkg = './' + place
-            rc0, out0 = sh(f'go test -vet=off -count=1 {pkg} -run "{m.get("demo_run_regex", "")}" 2>&1 | tail -5', wt) if False else sh(f'go test -vet=off -count=1 {pkg} 2>&1 | grep -E "^(--- FAIL|FAIL|ok|panic)" | head -5', wt)
+            tests = re.findall(r'^func (Test\w+)\(', open(demo).read(), re.M)
+            runarg = "-run '^(" + "|".join(tests) + ")$'" if tests else ""
+            rc0, out0 = sh(f'go test -vet=off -count=1 {runarg} {pkg} 2>&1 | grep -E "^(--- FAIL|FAIL|ok|panic)" | head -5', wt)
             res['demo_without'] = 'passes' if ('ok' in out0 and 'FAIL' not in out0) else 'FAILS: ' + out0.strip()[:200]
             sh(f'git apply {diff}', wt)
-            rc1, out1 = sh(f'go test -vet=off -count=1 {pkg} 2>&1 | grep -E "^(--- FAIL|FAIL|ok|panic)" | head -5', wt)
+            rc1, out1 = sh(f'go test -vet=off -count=1 {runarg} {pkg} 2>&1 | grep -E "^(--- FAIL|FAIL|ok|panic)" | head -5', wt)
             res['demo_with'] = 'fails' if 'FAIL' in out1 or 'panic' in out1 else 'PASSES (not a demonstration): ' + out1.strip()[:200]
             os.remove(dst)
             rc2, out2 = sh(f'python3 /verif/tools/suite.py {wt} | tail -3', wt, timeout=1800)
